@@ -383,19 +383,20 @@ UNITS["C07"] = [
 ]
 
 NOTES = {
-    "C07": "sequencing/dominance obligations on the real text of the local write path + the broadcast message construction fragment; rollback itself is SQLite's",
-    "C09": "totality of the hand-written decoders (no reachable panic, bounded reservations, UTF-8), packed-key width rule and round trip",
-    "C14": "update-feed kernels: causal-length cache filter (latest state wins, older-after-newer dropped), cache trim keeps newest, delete/update parity",
-    "C10": "seen-cache kernel of handle_changes: suppression test, drop-oldest eviction, cache insertion; cleared-decision of process_multiple_changes",
-    "C03": "decision kernels of 'applied iff covered': Changeset::is_complete, PartialVersion::is_complete (shared with C02), insert_partial union (C02), completeness triggers",
-    "C05": "safety guards of the sync server: pre-filter, empties decisions, partial-range clipping and its SQL overlap clause; send_change_chunks in unit c05_send",
-    "C16": "the cluster-id decision sites as fragments: uni dispatch, serve_sync prologue, sync-candidate filter, broadcast-target filter",
-    "C17": "token decision fragment (Verus), route/middleware ordering and read-only-guard dominance (structural obligations on the real text)",
-    "C04": "fragments of SyncStateV1::compute_available_needs: own-actor/zero-head guards, Full needs (sound + complete w.r.t. peer-held set), tail request above our head",
-    "C18": "inductive transition contracts of Members (history length unbounded, state size bounded => Kani harnesses are labelled bounded)",
-    "C12": "client clause only: SubscriptionStream accepts an event iff its id is last+1 and reports MissedChange otherwise",
-    "C02": "bookkeeping algebra of one actor: PartialVersion completeness; gap computation; contains predicates",
-    "C08": "per-call tiling contract of the real ChunkedChanges::next + verified driver for the whole-run statement; chunk_range: see kani unit",
+    "C02": "bookkeeping algebra of one actor (PartialVersion completeness, insert_partial union, contains predicates), gap computation, generate_sync per actor, insert_db (persisted gaps == stored gaps), reload order and column bindings of from_conn, SQL scoped per actor",
+    "C03": "decision kernels of 'applied iff covered': Changeset::is_complete, PartialVersion::is_complete / insert_partial (shared with C02), same-batch skip, SQL seq-range merge, completeness triggers; what suppliers send (send_change_chunks); clearing of buffered copies; hand-over to the applier",
+    "C04": "fragments of SyncStateV1::compute_available_needs (guards, peer-held sets, Full needs sound + complete, partial seq ranges = missing ∩ held, tail request), request de-duplication of parallel_sync, loop headers, chunk_range (bounded)",
+    "C05": "safety guards of the sync server (pre-filter, empties decisions, clipping + its SQL overlap clause, first stage of a Full need), the whole send_change_chunks against the chunker's contract, and the structural facts those fragments rest on (one snapshot, scoping, bindings, chunker bounds, error rows)",
+    "C07": "sequencing/dominance obligations on the real text of the local write path, the statement-closure and broadcast fragments, the chunker's tiling contract, own-actor guard of the ingest loop, head reload; rollback itself is SQLite's",
+    "C08": "per-call tiling contract of the real ChunkedChanges::next + verified driver for the whole run; send_change_chunks; clipping / de-duplication fragments; chunker construction sites; chunk_range: see kani unit (bounded)",
+    "C09": "totality of the hand-written decoders (no reachable panic, bounded reservations, UTF-8); round trip of every hand-written writer/reader pair over a token-stream wire (Changeset, SyncNeedV1, SyncStateV1, SqliteValue, newtypes); packed-key format, width rule and round trip",
+    "C10": "seen-cache kernel of handle_changes (suppression test, drop-oldest eviction, cache insertion), cleared decision and in-transaction skip of process_multiple_changes, contains/contains_all, offer loops, apply trigger hand-over, reload of held seqs",
+    "C12": "client clause (SubscriptionStream accepts an event iff its id is last+1, reports MissedChange otherwise, cursor written only there) and server clause (catch-up retries and hand-over produce consecutive ids; lag / overflow stop the stream; snapshot labelled with the id read with its rows; matcher publishes each event's id before commit)",
+    "C14": "update-feed kernels: causal-length cache filter (latest state wins, older-after-newer dropped, a stale key skips only itself), cache trim keeps newest, per-batch notification loop, delete/update parity, impacted-rows filter; both feeds fed; lagged feed stops",
+    "C15": "additive rules of apply_schema as fragments (tables, columns, primary key, new columns, indexes) + statement texts, transaction/commit/assignment order of execute_schema, reload, loop reaches the index comparison",
+    "C16": "the cluster-id decision sites as fragments (uni dispatch, whole uni receive loop, serve_sync prologue incl. the written rejection, sync-candidate filter, broadcast-target filter), fresh cluster id, member table takes the newer identity's cluster",
+    "C17": "whole require_authz middleware (Verus on abstract texts + Kani on real Strings, bounded length), route/middleware ordering, read-only pool construction and use, read-only-guard dominance, subscription text only parsed / prepared",
+    "C18": "add_member / remove_member / add_rtt / MemberState::{new,is_ring0} proved for maps of any size, whole-history lemma by induction over those contracts; recalculate_rings / ring0 as inductive Kani steps (bounded state => labelled bounded)",
 }
 
 # ---- cross-registration: a unit decides a fact that several properties rest on; it is run (and reported) under each of them, so that a
